@@ -26,7 +26,7 @@ RULE = ('simulated libraries with known truth: 1-8 cells, 1-40 sites on both str
 ASSUMPTIONS = ['the simulator is the truth (cell, site, strand, UMI by construction)',
                'for hamming>0 / radius>0 only soundness is demanded (chain linkage), for hamming 0 and radius 0 exact equality of the partition']
 MIN_NONTRIVIAL = {'quick': 60, 'thorough': 2000}
-REQUIRED_MONITORS = ['history:peek_then_full_pass', 'lib:molecules_of_more_than_255_fragments', 'eject:interval_shrunk', 'partition:no_split_checked', 'class:plain_fragment', 'lib:hard_clipped_fragments', 'class:plain_paired_inserts', 'lib:plain_copies_with_mates_running_past_the_insert', 'hook:Molecule.write_tags', 'partition:exact_compared', 'partition:soundness_checked', 'tags:molecules_checked',
+REQUIRED_MONITORS = ['history:peek_then_full_pass', 'lib:molecules_of_more_than_255_fragments', 'eject:interval_shrunk', 'partition:no_split_checked', 'class:plain_fragment', 'option:allow_cycle_shift', 'lib:hard_clipped_fragments', 'input:arbitrary_order_never_ejected', 'class:plain_paired_inserts', 'lib:plain_copies_with_mates_running_past_the_insert', 'hook:Molecule.write_tags', 'partition:exact_compared', 'partition:soundness_checked', 'tags:molecules_checked',
                      'history:input_with_duplicate_bits', 'history:retagged', 'cli:records_checked', 'cap:overflow_molecules']
 SHARD_TIMEOUT = {'quick': 900, 'thorough': 5400}
 
@@ -196,6 +196,9 @@ def run_case(case):
         n_sites, cap = 2, None
         acc.count('lib:molecules_of_more_than_255_fragments')
     plain_inserts = case['i'] % 8 == 3
+    # NlaIII with the option that accepts copies which lost their first sequenced base: such a copy has the same cut site as its complete sisters
+    cycle_shift_allowed = method == 'nla' and case['i'] % 3 == 1
+    acc.count('option:allow_cycle_shift', 1 if cycle_shift_allowed else 0)
     if plain_inserts:
         method, radius, cap, deep = 'plain', 0, None, False
         PLAIN_PAST[0] = 0
@@ -208,10 +211,10 @@ def run_case(case):
         umis_per_site=(1, r.choice([1, 3, 6])) if not deep else (1, 1), copies=(1, r.choice([1, 3, 5])) if not deep else (256, 300), case_id=case['i'] + 1, p_clip=0.25,
         p_invalid=0.08 if method == 'nla' else 0.0, p_umi_neighbour=0.5, chic_trimmed=trimmed,
         p_dup_flag=0.5 if history == 'dupbits' else 0.0, p_stale=0.6 if history == 'stale' else 0.0,
-        n_unmapped=r.choice([0, 0, 3]), umi_with_n=0.05, p_hard_clip=r.choice([0, 0.1, 0.3]))
+        n_unmapped=r.choice([0, 0, 3]), umi_with_n=0.05, p_hard_clip=r.choice([0, 0.1, 0.3]), p_cycle_shift=0.25 if cycle_shift_allowed else 0.0)
     if not truths:
         return acc
-    cfg = {'method': method, 'hamming': d, 'radius': radius, 'pooling': pooling, 'trimmed': trimmed, 'history': history, 'cap': cap,
+    cfg = {'method': method, 'allow_cycle_shift': cycle_shift_allowed, 'hamming': d, 'radius': radius, 'pooling': pooling, 'trimmed': trimmed, 'history': history, 'cap': cap,
            'fragments': len(truths), 'sites': n_sites, 'check_eject_every': eject_every if eject_every is not None else 'default'}
     acc.count('eject:interval_shrunk', 0 if eject_every is None else 1)
     if history != 'clean':
@@ -228,6 +231,8 @@ def run_case(case):
         acc.count('class:plain_fragment')
     if method == 'chic':
         fargs['assignment_radius'] = radius
+    if cycle_shift_allowed and method == 'nla':
+        fargs['allow_cycle_shift'] = True
     margs = {}
     if cap:
         margs['max_associated_fragments'] = cap
@@ -299,7 +304,9 @@ def run_case(case):
                 acc.violate('molecule-exceeds-cap', f'{label}: molecule of {len(g)} fragments with max_associated_fragments={cap}', wit)
 
     with Scratch('c06') as dd:
-        bam = write_bam(os.path.join(dd, 'in.bam'), gen.refs, recs)
+        ties = r if case['i'] % 2 else None
+        acc.count('input:ties_in_random_order', 1 if ties else 0)
+        bam = write_bam(os.path.join(dd, 'in.bam'), gen.refs, recs, tie_rng=ties)
         # ------------------------------------------------------------ API run
         obs.install()
         try:
@@ -343,11 +350,36 @@ def run_case(case):
         for mech, desc in obs.bad[:6]:
             acc.violate(mech, f'api write_tags post-condition: {mech} on molecule {desc} ({cfg})', dict(wit, molecule=desc))
         obs.bad.clear()
+        # ------------------------------------------------------------ API run on fragments in arbitrary order, nothing ever ejected
+        if case['i'] % 4 == 1 and not cap:
+            # check_eject_every=None keeps every molecule in memory: the documented way to assign molecules in input that is not coordinate
+            # sorted (aligner order, name sorted, reads collected from several regions)
+            with pysam.AlignmentFile(bam) as f:
+                by_name = defaultdict(lambda: [None, None])
+                for a in f.fetch(until_eof=True):
+                    if a.is_secondary or a.is_supplementary:
+                        continue
+                    by_name[a.query_name][1 if a.is_read2 else 0] = a
+            frs_ = [tuple(v) for v in by_name.values()]
+            r.shuffle(frs_)
+            with contextlib.redirect_stdout(io.StringIO()):
+                it_ = MoleculeIterator(frs_, molecule_class=mclass, fragment_class=fclass, fragment_class_args=dict(fargs), molecule_class_args=dict(margs),
+                                       yield_invalid=True, pooling_method=pooling, check_eject_every=None)
+                groups_u = []
+                for m in it_:
+                    ids = [F.id_from_name([x for x in frag if x is not None][0].query_name) for frag in m]
+                    if all(not truths[i]['valid'] for i in ids):
+                        continue
+                    groups_u.append(ids)
+            acc.count('input:arbitrary_order_never_ejected')
+            check_partition(groups_u, 'api-unsorted-never-ejected', set())
         # ------------------------------------------------------------ command line (single process) + re-tag
         if case['i'] % 2 == 0 and method != 'plain':
             from singlecellmultiomics.universalBamTagger.bamtagmultiome import run_multiome_tagging_cmd
             out1 = os.path.join(dd, 'tagged.bam')
             cmd = [bam, '-o', out1, '-method', method, '-umi_hamming_distance', str(d)]
+            if cycle_shift_allowed and method == 'nla':
+                cmd.append('--allow_cycle_shift')
             if method == 'chic' and radius:
                 cmd += ['-assignment_radius', str(radius)]
             if cap:
@@ -364,6 +396,8 @@ def run_case(case):
             g1 = check_tagged_bam(acc, out1, truths, cfg, wit, 'cli', check_partition, cap, is_overflow, check_overflow_claim)
             out2 = os.path.join(dd, 'retagged.bam')
             cmd2 = [out1, '-o', out2, '-method', method, '-umi_hamming_distance', str(d)]
+            if cycle_shift_allowed and method == 'nla':
+                cmd2.append('--allow_cycle_shift')
             if method == 'chic' and radius:
                 cmd2 += ['-assignment_radius', str(radius)]
             if cap:
